@@ -190,6 +190,12 @@ def plan(tier, rng, sl, nslices, stats):
             a["prods"].append([0, [["V", 3], ["T", 0]]])
             if b is not None:
                 b["vc"] = "str"
+        if rng.random() < 0.06 and b is not None:
+            a["start"] = None
+            b["vc"] = "emptyname"
+            if rng.random() < 0.6:
+                b["nv"] = 1
+                b["prods"] = [[0, [["T", 0]]], [0, [["T", 1], ["V", 0]]]][:rng.randint(1, 2)]
         yield {"a": a, "b": b, "warm": rng.random() < 0.5}
 
 
